@@ -266,3 +266,22 @@ package ingest
 //@   loop 1 invariant rangeindex >= -1 && forall(j, 0, rangeindex+1, b6.VerifAnyRank(c.Keys[j]) != b6.VerifAnyRank(key))
 //@   ensures forall(i, 0, len(c.Keys), implies(b6.VerifAnyRank(c.Keys[i]) == b6.VerifAnyRank(key), result1))
 //@   ensures implies(result1, exists(j, 0, len(c.Keys), b6.VerifAnyRank(c.Keys[j]) == b6.VerifAnyRank(key) && result0 == c.Values[j]))
+
+// AddFeatures.Apply: the first rejected feature ends the change with its error; on success
+// every feature was handed to the world. (The second loop only builds the result from a
+// Go map; map iteration is abstracted.)
+//@ func MutableWorld.AddFeature
+//@   trusted
+//@   sets calls = calls + 1
+//@   sets okCalls = okCalls + ite(result == nil, 1, 0)
+//@   sets failed = failed || result != nil
+//@ func (*AddFeatures).Apply
+//@   ghostvar calls = 0
+//@   ghostvar okCalls = 0
+//@   ghostvar failed = false
+//@   requires a != nil && w != nil
+//@   loop 1 invariant rangeindex >= -1 && rangeindex < len(*a) && !failed && calls == rangeindex + 1 && okCalls == rangeindex + 1 && features != nil
+//@   loop 2 invariant !failed && okCalls == len(*a) && calls == len(*a)
+//@   ensures (result1 != nil) == failed
+//@   ensures implies(result1 == nil, okCalls == len(*a) && calls == len(*a))
+//@   ensures implies(result1 != nil, calls == okCalls + 1)
